@@ -544,7 +544,7 @@ func TestLbvcScenarioCodec(t *testing.T) {
 		{MagicByte: 1, Key: []byte("k4"), Value: []byte("v4"), Headers: map[string][]byte{big: []byte("x")}, Timestamp: 10, LeaderEpoch: 3},
 		{MagicByte: 1, Key: []byte("k5"), Value: []byte("v5"), Headers: map[string][]byte{big[:32767]: []byte("y")}, Timestamp: 11, LeaderEpoch: 4},
 	}
-	eq := func(a, b []byte) bool { return string(a) == string(b) && (len(a) > 0 || len(b) > 0 || (a == nil) == (b == nil) || true) }
+	eq := func(a, b []byte) bool { return string(a) == string(b) && (a == nil) == (b == nil) }
 	l, cleanup := lbvcLog(t, Options{MaxSegmentBytes: 1 << 20})
 	defer cleanup()
 	stored := map[int64]*Message{}
@@ -589,7 +589,7 @@ func TestLbvcScenarioCodec(t *testing.T) {
 				problems = append(problems, fmt.Sprintf("offset %d: timestamp/epoch %d/%d, stored %d/%d", off, ts, epoch, want.Timestamp, want.LeaderEpoch))
 			}
 			if !eq(sm.Key(), want.Key) || !eq(sm.Value(), want.Value) {
-				problems = append(problems, fmt.Sprintf("offset %d: key/value %q/%q, stored %q/%q", off, sm.Key(), sm.Value(), want.Key, want.Value))
+				problems = append(problems, fmt.Sprintf("offset %d: key/value %q/%q (nil %v/%v), stored %q/%q (nil %v/%v)", off, sm.Key(), sm.Value(), sm.Key() == nil, sm.Value() == nil, want.Key, want.Value, want.Key == nil, want.Value == nil))
 			}
 			hs := sm.Headers()
 			if len(hs) != len(want.Headers) {
@@ -636,4 +636,75 @@ func lbvcHeaderShape(h map[string][]byte) string {
 		out = append(out, fmt.Sprintf("%s:nil=%v,len=%d", lbvcShort(k), v == nil, len(v)))
 	}
 	return strings.Join(out, " ")
+}
+
+// Truncation removes a suffix and nothing else: after Truncate(o) the log holds exactly the messages below o,
+// unchanged, readable from every start offset (also after a second truncation and after Close + New), and the
+// next append gets offset o.
+func TestLbvcScenarioTruncate(t *testing.T) {
+	var problems []string
+	for _, segBytes := range []int64{64, 150, 400, 1 << 20} {
+		for _, cuts := range [][]int64{{5}, {7, 3}, {9, 8, 2}, {4, 4}, {1}, {0}} {
+			dir, err := os.MkdirTemp("", "lbvc-trunc-")
+			if err != nil {
+				t.Skip(err)
+			}
+			lg, err := New(Options{Path: dir, MaxSegmentBytes: segBytes})
+			if err != nil {
+				os.RemoveAll(dir)
+				t.Skip(err)
+			}
+			l := lg.(*commitLog)
+			for i := 0; i < 10; i++ {
+				l.Append([]*Message{lbvcMsg(i, 0)})
+			}
+			desc := fmt.Sprintf("segment bytes %d, 10 messages, truncations %v", segBytes, cuts)
+			end := int64(10)
+			check := func(when string) {
+				if no := l.NewestOffset(); no != end-1 {
+					problems = append(problems, fmt.Sprintf("%s, %s: newest offset %d, expected %d", desc, when, no, end-1))
+				}
+				for start := int64(0); start < end; start++ {
+					offs, vals := lbvcReadFwd(l, start, 12)
+					var want []int64
+					for o := start; o < end; o++ {
+						want = append(want, o)
+					}
+					if fmt.Sprint(offs) != fmt.Sprint(want) {
+						problems = append(problems, fmt.Sprintf("%s, %s: reader from %d returned %v, the log holds %v", desc, when, start, offs, want))
+						return
+					}
+					for i, o := range offs {
+						if exp := fmt.Sprintf("k%d=value-%d", o, o); vals[i] != exp {
+							problems = append(problems, fmt.Sprintf("%s, %s: offset %d reads %q, stored %q", desc, when, o, vals[i], exp))
+							return
+						}
+					}
+				}
+			}
+			for _, c := range cuts {
+				if err := l.Truncate(c); err != nil {
+					problems = append(problems, fmt.Sprintf("%s: Truncate(%d): %v", desc, c, err))
+					break
+				}
+				if c < end {
+					end = c
+				}
+				check(fmt.Sprintf("after Truncate(%d)", c))
+			}
+			l.Close()
+			if lg2, err := New(Options{Path: dir, MaxSegmentBytes: segBytes}); err == nil {
+				l = lg2.(*commitLog)
+				check("after Close + New")
+				if offs, err := l.Append([]*Message{lbvcMsg(int(end), 0)}); err != nil || len(offs) != 1 || offs[0] != end {
+					problems = append(problems, fmt.Sprintf("%s: append after truncation got offsets %v (err %v), expected %d", desc, offs, err, end))
+				}
+				l.Close()
+			} else {
+				problems = append(problems, fmt.Sprintf("%s: reopening failed: %v", desc, err))
+			}
+			os.RemoveAll(dir)
+		}
+	}
+	lbvcScenarioTail(t, problems)
 }
